@@ -566,6 +566,7 @@ TResult ==
                             /\ \A i \in 1 .. expNf : Ev.ysR[i] = tail[i].sdR
          lasth == IF s.hist = <<>> THEN [pid |-> -2, yR |-> -2] ELSE s.hist[Len(s.hist)]
          first == IF n >= 1 THEN s.calls[1].yR ELSE 1000000000
+         nEarlierAtX == Cardinality({j \in DOMAIN s.calls : s.calls[j].pid = Ev.pid /\ s.calls[j].kind # "final"})
      IN Step([s EXCEPT !.phase = "done", !.ended = "result"],
              Chk(Ev.inbox /\ \A i \in 1 .. s.D : s.lbR[i] <= Ev.xR[i] /\ Ev.xR[i] <= s.ubR[i],
                  "C01.result_in_box")
@@ -606,10 +607,18 @@ TResult ==
         \cup Chk(noisy => Ev.pid \in nonfinalPids, "C05.result_evaluated_earlier")
         \cup Chk(noisy => ((nf = expNf \/ Ev.msg = "outfcn") /\ tailAtX), "C05.final_samples_at_x")
         \cup Chk(noisy => yvOK, "C05.yvec_is_final_obs")
-        \cup Chk((noisy /\ expNf = 1 /\ Ev.nvec = 2) => Ev.yvR[2] \in atx,
+        \* the earlier observation at x; when x was observed several times under specified noise the log holds ONE
+        \* record for it, whose value is the precision-weighted mean of those observations (and whose SD is smaller
+        \* than each reported SD): that merged record is then "the earlier observation"
+        \cup Chk((noisy /\ expNf = 1 /\ Ev.nvec = 2) =>
+                   (IF s.uhl = 2 /\ nEarlierAtX >= 2
+                    THEN atx # {} /\ (\A y \in atx : TRUE) /\
+                         (\E a \in atx : a <= Ev.yvR[2]) /\ (\E b \in atx : Ev.yvR[2] <= b)
+                    ELSE Ev.yvR[2] \in atx),
                  "C05.yvec_supplement_at_x")
         \cup Chk(noisy => ysdOK, "C05.ysd_is_reported")
-        \cup Chk((s.uhl = 2 /\ expNf = 1 /\ Len(Ev.ysR) = 2) => Ev.ysR[2] \in sdatx,
+        \cup Chk((s.uhl = 2 /\ expNf = 1 /\ Len(Ev.ysR) = 2) =>
+                   (IF nEarlierAtX >= 2 THEN \E b \in sdatx : Ev.ysR[2] <= b ELSE Ev.ysR[2] \in sdatx),
                  "C05.ysd_supplement_at_x")
         \cup Chk((noisy /\ Ev.nvec > 0) => Ev.fvalmean, "C05.fval_is_mean")
         \cup Chk((noisy /\ Ev.nvec > 0) => Ev.fsdsem, "C05.fsd_is_sem")
